@@ -93,11 +93,20 @@ structure DS where
   quiet : Nat := 0           -- points / batches without an event (model)
   branches : List String := []
   sawInput : Bool := false
+  -- form i (inhibition world): alert A = `conf` with `.inhibit('x', inhTags…)`, alert B = `confB` with `.category(catB)`
+  confB : Conf := {}
+  inhTags : List String := ["host"]
+  catB : String := "x"
+  inhDropped : Nat := 0
 
 def addBr (d : DS) (b : String) : DS := if d.branches.contains b then d else { d with branches := b :: d.branches }
 def addBrIf (d : DS) (cond : Bool) (b : String) : DS := if cond then addBr d b else d
 
-def alertID (gid : String) : String := "m:host=" ++ gid
+/-- form i keys the groups of the two alert nodes as `A/<host>` and `B/<host>`; their measurements are `ma` / `mb` -/
+def alertID (gid : String) : String :=
+  if gid.startsWith "A/" then "ma:host=" ++ (gid.drop 2).toString
+  else if gid.startsWith "B/" then "mb:host=" ++ (gid.drop 2).toString
+  else "m:host=" ++ gid
 
 def DS.group (d : DS) (gid : String) : GState :=
   match d.groups.find? (fun g => g.gid == gid) with
@@ -197,6 +206,34 @@ def doPoint (d : DS) (k : FlapConsts) (gid : String) (p : Pt) : DS := Id.run do
   let ftT : FlapTrack := { ft' with recent := ft'.recent.take c.history }
   return d.setGroup { g with st := st', tr := tr', ft := ftT,
                              lastEv := e.orElse (fun _ => g.lastEv), lastSpecEv := se.orElse (fun _ => g.lastSpecEv) }
+
+/-- form i: a point of alert B. Its state machine runs as ever; the event is then dropped (model: some registered
+inhibitor of A is set and matches; spec: some ID of A that matches is not OK). -/
+def doPointB (d : DS) (k : FlapConsts) (host : String) (p : Pt) : DS := Id.run do
+  let evTags := [("host", host)]
+  let aGroups := d.groups.filter (fun g => g.gid.startsWith "A/")
+  let tagsetOf (g : GState) : List (String × String) :=
+    d.inhTags.map (fun t => (t, if t == "host" then (g.gid.drop 2).toString else ""))
+  let inhM := eventInhibited (aGroups.map (fun g => (g.st.inhibiting, "x", tagsetOf g))) d.catB evTags
+  let inhS := aGroups.any (fun g => inhibits g.tr.level "x" (tagsetOf g) d.catB evTags)
+  let confA := d.conf
+  let nM := d.modelOut.size
+  let nS := d.specOut.size
+  let mut d := doPoint { d with conf := d.confB } k ("B/" ++ host) p
+  d := { d with conf := confA }
+  let deliveredM := d.modelOut.size > nM
+  if deliveredM && inhM then d := { d with modelOut := d.modelOut.pop, inhDropped := d.inhDropped + 1 }
+  if d.specOut.size > nS && inhS then d := { d with specOut := d.specOut.pop }
+  if deliveredM then
+    d := addBrIf d inhM "inh-dropped"
+    let anyNonOK := aGroups.any (fun g => g.tr.level != 0)
+    d := addBrIf d (!inhM && anyNonOK && d.catB != "x") "inh-category-mismatch"
+    d := addBrIf d (!inhM && anyNonOK && d.catB == "x") "inh-tag-mismatch"
+    d := addBrIf d (!inhM && d.catB == "x" && aGroups.any (fun g => (g.gid.drop 2).toString == host && g.tr.level == 0 && g.lastSpecEv.any (·.level != 0)))
+      "inh-released-by-withheld-recovery"
+    d := addBrIf d (!inhM && d.catB == "x" && aGroups.any (fun g => (g.gid.drop 2).toString == host && g.tr.level == 0 && g.lastSpecEv.any (·.level == 0)))
+      "inh-released-by-recovery"
+  return d
 
 def doBatch (d : DS) (k : FlapConsts) (gid : String) (b : Batch) : DS := Id.run do
   let c := d.conf.cfg
@@ -312,6 +349,11 @@ def judge (_id : String) (lines : Array String) : Verdict := Id.run do
       if d.sawInput then return .badop "cfg after input"
       let some conf := parseCfg rest | return .badop l
       d := { d with conf := conf }
+      d := { d with catB := (kvOf rest "catb").getD "x",
+                    inhTags := match (kvOf rest "inh").getD "host" with
+                      | "host" => ["host"]
+                      | "host+dc" => ["host", "dc"]
+                      | _ => ["host"] }
       d := addBr d (match conf.hist with
         | none => "hist-default"
         | some h => if h < 2 then "hist-clamped" else s!"hist-{h}")
@@ -344,6 +386,19 @@ def judge (_id : String) (lines : Array String) : Verdict := Id.run do
       d := { d with groups := d.groups.map (fun g =>
         { g with restorePending := true, tr := specRestart g.lastSpecEv, ft := flapRestart d.conf.cfg dec g.lastSpecEv }) }
       d := addBr d "restart"
+    | "cfgb" :: rest =>
+      let some conf := parseCfg rest | return .badop l
+      d := { d with confB := conf }
+    | ["pa", host, t, vec] =>
+      let some host := unesc host | return .badop l
+      let some t := t.toInt? | return .badop l
+      let some p := parseVec t vec | return .badop l
+      d := doPoint d k ("A/" ++ host) p
+    | ["pb", host, t, vec] =>
+      let some host := unesc host | return .badop l
+      let some t := t.toInt? | return .badop l
+      let some p := parseVec t vec | return .badop l
+      d := doPointB d k host p
     | ["events"] =>
       let some observed := parseList obs | return .badop l
       let sp := d.specOut.toList.map renderEv
@@ -363,6 +418,19 @@ def judge (_id : String) (lines : Array String) : Verdict := Id.run do
         return .specfail "forwarded-data" s!"{fwdDiff sp observed} (model {if observed == md then "agrees with" else "differs from"} the implementation)"
       if observed != md then
         return .mismatch s!"forwarded data: model vs implementation: {fwdDiff md observed}"
+    | [which] =>
+      if which != "eventsa" && which != "eventsb" then return .badop l
+      let pre := if which == "eventsa" then "ma:" else "mb:"
+      let some observed := parseList obs | return .badop l
+      let sp := (d.specOut.toList.filter (fun o => o.id.startsWith pre)).map renderEv
+      let md := (d.modelOut.toList.filter (fun o => o.id.startsWith pre)).map renderEv
+      if observed != sp then
+        let (clause, detail) := classify 3 sp observed
+        let clause := if which == "eventsb" && clause == "emission" then "inhibition-or-emission" else clause
+        return .specfail clause s!"{which}: {detail} (model {if observed == md then "agrees with" else "differs from"} the implementation)"
+      if observed != md then
+        let (_, detail) := classify 3 md observed
+        return .mismatch s!"{which}: model vs implementation: {detail}"
     | _ => return .badop l
   let nt := d.modelOut.size ≥ 2 && d.quiet ≥ 1
   return .ok nt d.branches.reverse
